@@ -34,7 +34,7 @@ func init() {
 			"R2: the create call is reached only by the goroutine that registered the in-flight entry; from the registration every path to an exit closes the channel and deletes the entry, in the same critical section as the insert; the in-flight table is written only by registration, by that cleanup and by the constructor. " +
 			"R3: waiting for an in-flight creation and the create call itself run with the lock released, and a waiter goes back to the lookup. " +
 			"R4: every insert on the miss path is followed, before the lock is released, by the capacity test; as a census over the package: every call of Add on the recency list - in the wrappers that share the cache's state, in private helpers and literals too - either puts back an entry a lookup of the list has found (length unchanged) or is followed by the capacity test on every path to the end of its critical section (followed to the callers of a private helper). R5: the delete callback runs under the mutex in the critical section of the removal it reports. " +
-			"Locksets see through private helpers that are only called with the mutex held and through literals run by a withLock-style wrapper; the in-flight table may map a key to the bare channel or to a record holding it (absence tested by comma-ok or, when only non-nil records are stored, by nil); the creator may close the channel it reads back from the table under the registered key (the census clauses make that the registered one); a literal run by an iteration helper of another package (which only calls it) runs under the locks held at the helper's call, minus what the literal itself may release. Q1-Q7: the sequential LRU rules of C08 (a concurrent history must be equivalent to a sequential LRU history). M1-M12: the structural rules of the ordered map the cache keeps its recency order in (C10.R1-R12): a list that loses entries evicts the wrong victim and never hands the lost values to the delete callback. R6: every exported operation of the cache other than GetOrCreate (Remove, Clear, ...) touches the recency list inside one critical section: once it gave up the mutex after a list access it does not touch the list again, neither directly nor through a helper that locks for itself (decided by composing, over all paths and through private helpers and literals, the sequence of list accesses and lock boundaries of the call) - an operation spread over two sections is not one atomic step of any sequential history. R7: a value read from the recency list is put back (the hit's move to the most-recent end) only inside the critical section that read it - no release of the mutex, or of the shared lock the lookup ran under, between the lookup and the re-insert, also across private helpers - otherwise an entry removed in the gap is resurrected without a capacity test. R8: the creator removes its in-flight entry under the very key value it registered it under (one evaluation of the key mapping, seen through local copies and helper parameters), so that the registered entry - not some other key - is what is released. R2 also, across private helpers, literals and deferred calls (a summary automaton over the events close / delete of the in-flight entry / insert / lock boundary, composed at calls and at the deferred calls of every exit): what is released in one critical section is not completed - entry dropped, value inserted - in a later one.",
+			"Locksets see through private helpers that are only called with the mutex held and through literals run by a withLock-style wrapper; the in-flight table may map a key to the bare channel or to a record holding it (absence tested by comma-ok or, when only non-nil records are stored, by nil); the creator may close the channel it reads back from the table under the registered key (the census clauses make that the registered one); a literal run by an iteration helper of another package (which only calls it) runs under the locks held at the helper's call, minus what the literal itself may release. Q1-Q7: the sequential LRU rules of C08 (a concurrent history must be equivalent to a sequential LRU history). M1-M12: the structural rules of the ordered map the cache keeps its recency order in (C10.R1-R12): a list that loses entries evicts the wrong victim and never hands the lost values to the delete callback. R6: every exported operation of the cache other than GetOrCreate (Remove, Clear, ...) touches the recency list inside one critical section: once it gave up the mutex after a list access it does not touch the list again, neither directly nor through a helper that locks for itself (decided by composing, over all paths and through private helpers and literals, the sequence of list accesses and lock boundaries of the call) - an operation spread over two sections is not one atomic step of any sequential history. R7: a value read from the recency list is put back (the hit's move to the most-recent end) only inside the critical section that read it - no release of the mutex, or of the shared lock the lookup ran under, between the lookup and the re-insert, also across private helpers - otherwise an entry removed in the gap is resurrected without a capacity test. R8: the creator removes its in-flight entry under the very key value it registered it under (one evaluation of the key mapping, seen through local copies and helper parameters), so that the registered entry - not some other key - is what is released. R9: every insert into the recency list under a key (a call of Add that does not put back a looked-up entry - also in operations added later and in the wrappers) consults or updates the in-flight table under that key earlier in its critical section, or else every creator's insert branches on the result of Add: otherwise an insert that runs while a creation of the key is in flight makes the creator's Add fail silently and the created value is never resident and never deleted. R10: the recency-list field is assigned only while the cache is constructed, or no access to the list goes through a pointer that was read from the field in an earlier critical section (a detached list would swallow a creator's insert). R2 also, across private helpers, literals and deferred calls (a summary automaton over the events close / delete of the in-flight entry / insert / lock boundary, composed at calls and at the deferred calls of every exit): what is released in one critical section is not completed - entry dropped, value inserted - in a later one.",
 		NotDecided: "linearizability of histories; created-versus-deleted balance over schedules.",
 	})
 }
@@ -1020,6 +1020,11 @@ func runC09(c *Ctx) {
 	lv := r.locks
 	// R2, across helpers and deferred calls (v_lru_flight.go); before the roles below are resolved in GetOrCreate's own body
 	c.lruReleaseInsertSectionV(r, "C09.R2")
+	// R9, R10 (v_lru_g.go): an insert knows about a creation in flight; a re-assigned list is never used through a stale pointer
+	c.lruInsertKnowsFlightV(r, "C09.R9")
+	c.R.Floor("C09.R9", 1)
+	c.lruListPointerFreshV(r, "C09.R10")
+	c.R.Floor("C09.R10", 1)
 	// R1 lockset
 	for _, fn := range r.bodies {
 		fn := fn
